@@ -213,6 +213,26 @@ def all_nodes(root):
     return out
 
 
+EML_NS = "https://eml.ecoinformatics.org/eml-2.2.0"
+
+
+def decorate_like_import(rng, t):
+    """What a tree imported from a real document carries and a generated one lacks: text after elements (tails), a default
+    namespace (key None) beside prefixed ones, a prefixed root.  None of it matters to validation, evaluation, pruning or
+    reference expansion - which is the point."""
+    nodes = all_nodes(t)
+    for n in rng.sample(nodes, min(len(nodes), rng.choice([2, 6, 20]))):
+        if n.parent is not None:
+            n.tail = rng.choice(["\n    ", " text after the element ", "\xa0", "\n"])
+    if rng.random() < 0.6:
+        t.add_namespace(None, EML_NS)
+        t.add_namespace("stmml", "http://www.xml-cml.org/schema/stmml-1.2")
+    if t.name == "eml" and rng.random() < 0.5:
+        t.prefix = "eml"
+        t.add_namespace("eml", EML_NS)
+    return t
+
+
 MUTATIONS = ("drop", "duplicate", "swap", "move", "rename_unknown", "rename_known", "content", "attr_corrupt", "attr_drop",
              "attr_add", "junk_under_metadata", "add_unknown_child", "add_known_child")
 BAD_CONTENT = ["", " ", "abc", "12abc", "1.2.3", "nan", "inf", "-inf", "181", "-181", "91", "-0.0001", "25:00:00",
